@@ -298,10 +298,12 @@ class HTMLSerializer(object):
                     in_cdata = True
                 elif in_cdata:
                     self.serializeError("Unexpected child element of a CDATA element")
+                unquoted_value = False
                 for (_, attr_name), attr_value in token["data"].items():
                     # TODO: Add namespace support here
                     k = attr_name
                     v = attr_value
+                    unquoted_value = False
                     yield self.encodeStrict(' ')
 
                     yield self.encodeStrict(k)
@@ -336,9 +338,12 @@ class HTMLSerializer(object):
                             yield self.encode(v)
                             yield self.encodeStrict(quote_char)
                         else:
+                            unquoted_value = True
                             yield self.encode(v)
                 if name in voidElements and self.use_trailing_solidus:
-                    if self.space_before_trailing_solidus:
+                    # a solidus right after an unquoted attribute value would
+                    # be read as part of the value
+                    if self.space_before_trailing_solidus or unquoted_value:
                         yield self.encodeStrict(" /")
                     else:
                         yield self.encodeStrict("/")
